@@ -1,0 +1,137 @@
+//! Read-only observation hook for external verification harnesses.
+//!
+//! Compiled only with the cargo feature `yuja_qmluic_verif`. An observer installed by
+//! [`set_observer()`] is called once per binding/callback code body at the end of
+//! [`build()`](super::build), in the iteration order of the real (unordered) maps, so that
+//! the finished IR can be inspected without changing the translation in any way.
+
+use super::objcode::{ObjectCodeMap, PropertyCode, PropertyCodeKind};
+use crate::objtree::ObjectTree;
+use crate::tir::CodeBody;
+use crate::typemap::{Method, Property, TypeSpace as _};
+use std::cell::RefCell;
+use std::collections::HashMap;
+
+/// Place where the observed code was found.
+#[derive(Clone, Copy, Debug, Eq, PartialEq)]
+pub enum ObservedKind {
+    /// Property binding of the object (possibly a member of grouped binding.)
+    Property,
+    /// Attached property binding.
+    Attached,
+    /// Signal callback.
+    Callback,
+}
+
+/// Borrowed view of a finished code body and its context.
+#[derive(Debug)]
+pub struct ObservedCode<'r> {
+    /// Index of the owning object in the flattened object tree.
+    pub object_index: usize,
+    /// Object id or generated name.
+    pub object_name: &'r str,
+    /// Qualified C++ class name of the owning object.
+    pub object_class: String,
+    pub kind: ObservedKind,
+    /// Binding path. `["font", "family"]` for grouped, `["QLayout", "row"]` for attached.
+    pub path: Vec<String>,
+    /// Description of the bound property (None for callback.)
+    pub property: Option<&'r Property<'r>>,
+    /// Description of the bound signal (None for property.)
+    pub signal: Option<&'r Method<'r>>,
+    pub code: &'r CodeBody<'r>,
+    /// Whether the code has been evaluated successfully as a constant by the .ui pass.
+    pub is_evaluated_constant: bool,
+    /// Byte range of the binding value node in the source.
+    pub byte_range: std::ops::Range<usize>,
+}
+
+type Observer = Box<dyn for<'r> FnMut(&ObservedCode<'r>)>;
+
+thread_local! {
+    static OBSERVER: RefCell<Option<Observer>> = const { RefCell::new(None) };
+}
+
+/// Installs the observer for the current thread, returns the old one.
+pub fn set_observer(observer: Option<Observer>) -> Option<Observer> {
+    OBSERVER.with(|o| std::mem::replace(&mut *o.borrow_mut(), observer))
+}
+
+pub(super) fn observe_object_code_maps(object_tree: &ObjectTree, code_maps: &[ObjectCodeMap]) {
+    // take the observer out so that a re-entrant build() wouldn't double-borrow
+    let Some(mut observer) = set_observer(None) else {
+        return;
+    };
+    for (obj_node, code_map) in object_tree.flat_iter().zip(code_maps) {
+        let object_index = obj_node.flat_index();
+        let object_name = obj_node.name();
+        let object_class = obj_node.class().qualified_cxx_name().into_owned();
+        let mut emit = |kind, path: Vec<String>, property, signal, code, constant, byte_range| {
+            observer(&ObservedCode {
+                object_index,
+                object_name,
+                object_class: object_class.clone(),
+                kind,
+                path,
+                property,
+                signal,
+                code,
+                is_evaluated_constant: constant,
+                byte_range,
+            })
+        };
+        observe_properties(ObservedKind::Property, &[], code_map.properties(), &mut emit);
+        for c in code_map.callbacks() {
+            emit(
+                ObservedKind::Callback,
+                vec![c.desc().name().to_owned()],
+                None,
+                Some(c.desc()),
+                c.code(),
+                false,
+                c.binding_node().byte_range(),
+            );
+        }
+        for (cls, (_, map)) in code_map.all_attached_properties() {
+            let prefix = [cls.name().to_owned()];
+            observe_properties(ObservedKind::Attached, &prefix, map, &mut emit);
+        }
+    }
+    set_observer(Some(observer));
+}
+
+fn observe_properties<'r, F>(
+    kind: ObservedKind,
+    prefix: &[String],
+    map: &'r HashMap<&str, PropertyCode<'r, '_, '_>>,
+    emit: &mut F,
+) where
+    F: FnMut(
+        ObservedKind,
+        Vec<String>,
+        Option<&'r Property<'r>>,
+        Option<&'r Method<'r>>,
+        &'r CodeBody<'r>,
+        bool,
+        std::ops::Range<usize>,
+    ),
+{
+    for (&name, p) in map {
+        let mut path = prefix.to_vec();
+        path.push(name.to_owned());
+        match p.kind() {
+            PropertyCodeKind::Expr(_, code) => emit(
+                kind,
+                path,
+                Some(p.desc()),
+                None,
+                code,
+                p.is_evaluated_constant(),
+                p.node().byte_range(),
+            ),
+            PropertyCodeKind::GadgetMap(_, m) | PropertyCodeKind::ObjectMap(_, m) => {
+                observe_properties(kind, &path, m, emit)
+            }
+        }
+    }
+}
